@@ -437,6 +437,30 @@ GOLDEN["golden_intent.json"] = (INTENT_SPEC, [
 ])
 
 
+_DS = "zydeco_surface::bitter::desugar::"
+DESUGAR_SPEC = {
+    "calls": [("desugar", r"Desugar>::desugar$"), ("alloc", r"Alloc.*::alloc$|::alloc$"), ("telescope.desugar", r"ParameterTelescope::desugar$"),
+              ("quantify", r"ParameterTelescope::quantify$|::quantify$"), ("abstract", r"::abstract_over$|::abstract$"),
+              ("push", r"Vec::<T, A>::push$"), ("extend", r"::extend$"), ("pop", r"Vec::<T, A>::pop$"), ("rev", r"::rev$"),
+              ("fold", r"::fold$"), ("try_fold", r"::try_fold$"), ("rfold", r"::rfold$"), ("len", r"::len$"), ("next", r"Iterator>::next$|::next$"),
+              ("err", r"DesugarError::\\w+$"), ("lookup", r"::lookup_\\w+$"), ("from_vec", r"::from_vec$"),
+              ("existential", r"ExistentialTelescope::\\w+$|TextualExistentialTelescope::\\w+$"), ("copattern", r"CoPattern\\w*::\\w+$")],
+    "ctors": [r"bitter::syntax::\\w+$|zydeco_syntax::\\w+$"],
+    "assign": [],
+    "branch_ifs": True, "branch_matches": True, "returns": True,
+}
+GOLDEN["golden_desugar.json"] = (DESUGAR_SPEC, [
+    ("Desugar for TermId", "<zydeco_surface::textual::syntax::TermId as %sDesugar>::desugar" % _DS, "seq"),
+    ("Desugar for PatId", "<zydeco_surface::textual::syntax::PatId as %sDesugar>::desugar" % _DS, "seq"),
+    ("Desugar for CoPatId", "<zydeco_surface::textual::syntax::CoPatId as %sDesugar>::desugar" % _DS, "seq"),
+    ("Desugar for GenBind", "<zydeco_surface::textual::syntax::GenBind<zydeco_surface::textual::syntax::TermId> as %sDesugar>::desugar" % _DS, "seqwhole"),
+    ("ParameterTelescope::desugar", _DS + "ParameterTelescope::desugar", "seqwhole"),
+    ("ParameterTelescope::quantify", _DS + "ParameterTelescope::quantify", "seqwhole"),
+    ("ExistentialTelescope::quantify", _DS + "ExistentialTelescope::quantify", "seqwhole"),
+    ("TextualExistentialTelescope::new", _DS + "TextualExistentialTelescope::new", "seqwhole"),
+])
+
+
 def compute(facts, fname):
     spec, fns = GOLDEN[fname]
     out = {}
